@@ -95,7 +95,10 @@ spec fn filt(fs: Seq<TextFilter>, k: int, s: Seq<char>) -> Seq<char> decreases k
 // gains exactly the kept characters of the filtered text, in order, tagged with the annotation stack (inside <pre>: the stack plus
 // one preformat annotation)
 spec fn emitted<A>(base: Seq<CItem<Vec<A>>>, ignorable: bool, fw: Option<WrappedBlock<Vec<A>>>, fs: Seq<TextFilter>, text: Seq<char>, stack: Seq<A>, pre: bool) -> bool {
-    if ignorable && all_ws(text) { true } else {
+    if ignorable && all_ws(text) { true } else if fw is None {
+        // no block was opened: then there was nothing to hand over and nothing open before
+        base.len() == 0 && kept(filt(fs, fs.len() as int, text)).len() == 0
+    } else {
         fw matches Some(w1) && exists|mt: Vec<A>, ct: Vec<A>| #[trigger] appended_b(base, w1.text@, w1.line.v@, w1.word.v@, kept(filt(fs, fs.len() as int, text)), mt, ct)
             && (if pre { mt@.drop_last() == stack && ct@.drop_last() == stack && mt@.len() == stack.len() + 1 && ct@.len() == stack.len() + 1 } else { mt@ == stack && ct@ == stack })
     }
@@ -131,6 +134,14 @@ spec fn pref_elt<A>(l: RenderLine<Vec<A>>, prefix: Seq<char>, tag: Vec<A>) -> Se
 // ... and for all of them: line i gets prefix number k0 + i
 spec fn pref_view<A>(ls: Seq<RenderLine<Vec<A>>>, p: Prefixes, k0: int, tag: Vec<A>) -> Seq<CItem<Vec<A>>> decreases ls.len() {
     if ls.len() == 0 { Seq::empty() } else { pref_view(ls.drop_last(), p, k0, tag) + pref_elt(ls.last(), p.at(k0 + ls.len() - 1), tag) }
+}
+proof fn lemma_pref_step<A>(ls: Seq<RenderLine<Vec<A>>>, k: int, p: Prefixes, k0: int, tag: Vec<A>)
+    requires 0 <= k < ls.len(),
+    ensures ns(pref_view(ls.take(k + 1), p, k0, tag)) =~= ns(pref_view(ls.take(k), p, k0, tag)) + ns(pref_elt(ls[k], p.at(k0 + k), tag)),
+{
+    assert(ls.take(k + 1).drop_last() =~= ls.take(k));
+    assert(ls.take(k + 1).last() == ls[k]);
+    lemma_ns_concat(pref_view(ls.take(k), p, k0, tag), pref_elt(ls[k], p.at(k0 + k), tag));
 }
 // the nested renderer `ov` yields lines `ol` that carry all its characters (`rest`: markers no text line follows), and the parent's view gains them, prefixed
 spec fn sub_appended<A>(v0: Seq<CItem<Vec<A>>>, v1: Seq<CItem<Vec<A>>>, ov: Seq<CItem<Vec<A>>>, ol: Seq<RenderLine<Vec<A>>>, rest: Seq<CItem<Vec<A>>>, p: Prefixes, tg: Vec<A>, stack: Seq<A>) -> bool {
@@ -469,6 +480,7 @@ impl<D: TextDecorator> SubRenderer<D> {
 //@sub /for frag in std::mem::take\(&mut self\.pending_frags\)/ ==> let frags = vec_take(&mut self.pending_frags);\n                    for frag in it: frags
 //@sub /for part in tagged_line\.into_iter\(\)/ ==> let parts = tagged_line.v;\n                    for part in it2: parts
 //@auto C01 C14
+    #[verifier::spinoff_prover] //@w
     fn add_line(&mut self, line: RenderLine<Vec<D::Annotation>>)
         requires old(self).sr_inv(), tag_ok::<Vec<D::Annotation>>(), //@w
             // C02 at this level: a line handed to a renderer fits the renderer's width //@w
@@ -553,6 +565,7 @@ impl<D: TextDecorator> SubRenderer<D> {
 //@sub /self\.extend_lines\(w\.into_lines\(\)\?\.into_iter\(\)\.map\(RenderLine::Text\)\);/ ==> let ls = w.into_lines()?;\n            for l in it: ls\n            {\n                self.add_line(RenderLine::Text(l));\n            }
 //@sub /self\.pending_frags\.extend\(frags\);/ ==> vec_extend(&mut self.pending_frags, frags);
 //@auto C01 C14 C03
+    #[verifier::spinoff_prover] //@w
     fn flush_wrapping(&mut self) -> (r: Result<()>)
         requires old(self).sr_inv(), tag_ok::<Vec<D::Annotation>>(), //@w
         ensures //@w
@@ -952,6 +965,7 @@ impl<D: TextDecorator> SubRenderer<D> {
 //@sub /RenderLine::Text\(mut tline\) => \{/ ==> RenderLine::Text(tline0) => {\n                        let mut tline = tline0;
 //@auto C01 C07 C02
     #[verifier::rlimit(100)] //@w
+    #[verifier::spinoff_prover] //@w
     fn append_subrender(&mut self, other: Self, prefixes0: Prefixes) -> (r: Result<()>)
         requires old(self).sr_inv(), other.sr_inv(), tag_ok::<Vec<D::Annotation>>(), //@w
             other.options == old(self).options, //@w
@@ -1038,10 +1052,9 @@ impl<D: TextDecorator> SubRenderer<D> {
             self.add_line(newline);
             proof { //@w
                 let k = it.index@; //@w
-                assert(olines@.take(k + 1) =~= olines@.take(k).push(olines@[k])); //@w
-                assert(olines@.take(k + 1).drop_last() =~= olines@.take(k)); //@w
-                lemma_ns_concat(pref_view(olines@.take(k), prefixes0, pos0, tag), pref_elt(olines@[k], prefixes0.at(pos0 + k), tag)); //@w
+                lemma_pref_step(olines@, k, prefixes0, pos0, tag); //@w
                 assert(self.rview() =~= vk + ns(rl_elt(newline))); //@w
+                assert(rl_elt(newline) =~= pref_elt(olines@[k], prefixes0.at(pos0 + k), tag)); //@w
             } //@w
         }
         proof { //@w
@@ -1186,6 +1199,7 @@ impl<D: TextDecorator> SubRenderer<D> {
 //@sub /s: s\.to_owned\(\),/ ==> s: string_to_owned(&s),
 //@sub /let mut wrapped_line = TaggedLine::new\(\);/ ==> let mut wrapped_line: TaggedLine<Vec<D::Annotation>> = TaggedLine::new();
 //@auto C01 C02 C08
+    #[verifier::spinoff_prover] //@w
     fn fmt_links(&mut self, links: Vec<TaggedLine<D::Annotation>>)
         requires old(self).sr_inv(), tag_ok::<Vec<D::Annotation>>(), //@w
             // KNOWN FINDING D13: at width 1 a double-width character of a link target is emitted on a line of its own, two columns wide, //@w
@@ -1288,6 +1302,7 @@ impl<D: TextDecorator> SubRenderer<D> {
 //@sub /filter\(srctext\)/ ==> filter.call(srctext)
 //@auto C01 C09
     #[verifier::rlimit(100)] //@w
+    #[verifier::spinoff_prover] //@w
     fn add_inline_text(&mut self, text: &str) -> (r: Result<()>)
         requires old(self).sr_inv(), old(self).room(), short(text@), tag_ok::<Vec<D::Annotation>>(), //@w
         ensures //@w
@@ -1302,6 +1317,8 @@ impl<D: TextDecorator> SubRenderer<D> {
             // L2 (C03, C09, C16): the open block gains exactly the kept characters of the text as it comes out of the filter stack, //@w
             // in order and tagged with the annotation stack; nothing else reaches it //@w
             r.is_ok() ==> emitted(old(self).block_base(), old(self).ign(), final(self).wrapping, old(self).text_filter_stack@, text@, old(self).ann_stack@, old(self).pre_depth > 0), //@w @C03 @C09 @C16 #inline_text_reaches_block_verbatim
+            // in white-space preserving modes no text is skipped, white space included: it always reaches the (possibly new) block (C12) //@w
+            r.is_ok() && old(self).ws_mode_spec().preserve_spec() ==> final(self).wrapping is Some, //@w @C12 #preformatted_text_always_reaches_block
             // inline text inside an open block touches neither the finished lines nor the pending markers //@w
             !old(self).at_block_end ==> final(self).lines@ == old(self).lines@ && final(self).pending_frags@ == old(self).pending_frags@, //@w @C03 @C14 #inline_text_only_touches_block
             // L3: what the renderer holds afterwards is what it held before followed by those characters; nothing before them is lost, duplicated or reordered //@w
